@@ -2,14 +2,9 @@
 //! Usage: vh <PROP> --tier quick|thorough --seed N --shard i --shards n --out file [--replay file]
 //!        vh --child <name> [args..]     (isolated sub-case, used internally)
 
-mod common;
-mod gen;
-mod pki;
-mod p_backoff;
-mod p_codec;
-mod p_crypto;
-
-use common::*;
+// One library crate per workload group under crates/; each offers dispatch(&Args, &mut Report) -> bool
+// and optionally child(&str, &[String]) -> Option<i32>.
+use vh_common::common::{self, *};
 
 #[global_allocator]
 static ALLOC: common::alloc_count::Counting = common::alloc_count::Counting;
@@ -71,7 +66,7 @@ fn main() {
         let rest: Vec<String> = argv[3.min(argv.len())..].to_vec();
         // isolated sub-cases: each module claims the names it knows, None = not mine
         let code = None
-            .or_else(|| p_codec::child(&name, &rest))
+            .or_else(|| vh_codec::child(&name, &rest))
             .unwrap_or_else(|| {
                 eprintln!("unknown child {}", name);
                 2
@@ -81,9 +76,9 @@ fn main() {
     let args = parse_args();
     let mut rep = Report::new(&args);
     // every workload module offers dispatch(prop, args, rep) -> handled?
-    let handled = p_codec::dispatch(&args, &mut rep)
-        || p_backoff::dispatch(&args, &mut rep)
-        || p_crypto::dispatch(&args, &mut rep);
+    let handled = vh_codec::dispatch(&args, &mut rep)
+        || vh_misc::dispatch(&args, &mut rep)
+        || vh_crypto::dispatch(&args, &mut rep);
     if !handled {
         eprintln!("unknown property {}", args.prop);
         std::process::exit(2);
